@@ -93,6 +93,15 @@ func varOf(param interp.Value) (vr *interp.Opaque, v *interp.Struct) {
 	return vr, v
 }
 
+// recOf: what the AddVar model recorded when it made this Var (scope, suffix).
+func recOf(v *interp.Struct) *varRec {
+	if v == nil {
+		return nil
+	}
+	r, _ := v.Aux["rec"].(*varRec)
+	return r
+}
+
 // obligations evaluates the generator-side rules on one explored path.
 func (d *deriver) obligations(dv *Derived, formatter string) {
 	model, e := d.model, d.model.Env
@@ -300,14 +309,19 @@ func (d *deriver) obligations(dv *Derived, formatter string) {
 			}
 			sc := -1
 			sameScope := true
+			// the go/types objects of a repeated interface are those of its first occurrence
+			si := i
+			if mi.DupOfFirst {
+				si = 0
+			}
 			for k, p := range ps {
-				vr, _ := varOf(p)
-				okID := vr != nil && vr.ID == fmt.Sprintf("p%d_%d_%d", i, j, k)
+				vr, vv := varOf(p)
+				okID := vr != nil && vr.ID == fmt.Sprintf("p%d_%d_%d", si, j, k)
 				dv.ob("G-DATA/params", "index-preserving", okID, "Params[%d] of method %d/%d is built from %s, want the signature's parameter %d", k, i, j, interp.Show(vr), k)
 				variadic := fieldOf(structOf(p), "Variadic")
 				dv.ob("G-DATA/params", "variadic", variadic == interp.Value(me.Params[k].Variadic), "Params[%d].Variadic=%s of method %d/%d, want %v (only the last parameter of a variadic signature)", k, interp.Show(variadic), i, j, me.Params[k].Variadic)
 				if vr != nil {
-					if rec := d.vars[vr.ID]; rec != nil {
+					if rec := recOf(vv); rec != nil {
 						if sc == -1 {
 							sc = rec.scope
 						} else if sc != rec.scope {
@@ -317,11 +331,11 @@ func (d *deriver) obligations(dv *Derived, formatter string) {
 				}
 			}
 			for k, p := range rs {
-				vr, _ := varOf(p)
-				okID := vr != nil && vr.ID == fmt.Sprintf("r%d_%d_%d", i, j, k)
+				vr, vv := varOf(p)
+				okID := vr != nil && vr.ID == fmt.Sprintf("r%d_%d_%d", si, j, k)
 				dv.ob("G-DATA/results", "index-preserving", okID, "Returns[%d] of method %d/%d is built from %s, want the signature's result %d", k, i, j, interp.Show(vr), k)
 				if vr != nil {
-					if rec := d.vars[vr.ID]; rec != nil {
+					if rec := recOf(vv); rec != nil {
 						if sc == -1 {
 							sc = rec.scope
 						} else if sc != rec.scope {
@@ -348,7 +362,7 @@ func (d *deriver) obligations(dv *Derived, formatter string) {
 		}
 		for k, tp := range tps {
 			vr, _ := varOf(tp)
-			okTP := vr != nil && symFlat(vr.Attrs["name"]) == mi.TypeParams[k].Name && symFlat(vr.Attrs["constraintOf"]) == fmt.Sprintf("tp%d_%d.constraint.type", i, k)
+			okTP := vr != nil && symFlat(vr.Attrs["name"]) == mi.TypeParams[k].Name && symFlat(vr.Attrs["constraintOf"]) == fmt.Sprintf("tp%d_%d.constraint.type", si0(mi, i), k)
 			dv.ob("G-DATA/typeparams", "index-preserving", okTP, "TypeParams[%d] of mock %d is not built from type parameter %d (its name, typed by its constraint)", k, i, k)
 			c := fieldOf(structOf(tp), "Constraint")
 			_, isNil := c.(interp.NilV)
@@ -446,4 +460,11 @@ func MockNamesOf(dv *Derived, i int) (iface, mock string, lookups []string, ok b
 		return "", "", lookups, false
 	}
 	return symFlat(fieldOf(ms, "InterfaceName")), symFlat(fieldOf(ms, "MockName")), lookups, true
+}
+
+func si0(mi MockInfo, i int) int {
+	if mi.DupOfFirst {
+		return 0
+	}
+	return i
 }
